@@ -129,6 +129,7 @@ pub fn features(q: &Query, t: &Table, layout: &Layout) -> Vec<String> {
     f
 }
 
+#[derive(Clone)]
 pub struct Judged {
     pub out: QOut,
     pub verdict: Result<(), String>,
@@ -266,11 +267,13 @@ pub fn failure_key(j: &Judged) -> String {
     }
 }
 
-pub fn minimize(table: &Table, layout: &Layout, q: &Query, cache: &mut Option<Db>, budget: usize) -> (Query, Judged) {
+pub fn minimize(table: &Table, layout: &Layout, q: &Query, j0: &Judged, cache: &mut Option<Db>, budget: usize) -> (Query, Judged) {
+    // start from the observed failure itself: some engine failures depend on the order in which the
+    // worker threads finish, so a re-run of the same query need not fail again
     let mut cur = q.clone();
-    let mut cur_j = run_and_judge(table, layout, &cur, cache);
+    let mut cur_j = j0.clone();
     let key = failure_key(&cur_j);
-    let mut runs = 1;
+    let mut runs = 0;
     'outer: loop {
         for cand in simpler(&cur) {
             if runs >= budget {
@@ -404,7 +407,7 @@ pub fn describe(q: &Query, t: &Table, layout: &Layout) -> String {
 pub fn outcome_attributed(table: &Table, layout: &Layout, q: &Query, j: &Judged, cache: &mut Option<Db>, extra_why: &str) -> Outcome {
     let mut o = outcome(table, q, j, extra_why);
     if j.verdict.is_err() {
-        let (mq, mj) = minimize(table, layout, q, cache, 30);
+        let (mq, mj) = minimize(table, layout, q, j, cache, 30);
         let reason = mj.verdict.as_ref().err().cloned().unwrap_or_default();
         let tag = reason.split(':').next().unwrap_or("mismatch").to_string();
         let failure = match &mj.out {
